@@ -146,8 +146,13 @@ PGreedy ==
 
 PBytes ==
     /\ Going /\ PTop.op = "bytes" /\ wpos + PTop.n - 1 <= Len(TW)
-    /\ Emit(Indent(PTop.ind) \o PTop.nm \o ": '"
-            \o Concat([q \in 1..PTop.n |-> ByteText(TW[wpos + q - 1].v[1])]) \o "'")
+    /\ LET bs == [q \in 1..PTop.n |-> TW[wpos + q - 1].v[1]]
+           \* quoting (Python's repr of bytes, which the C++ printer follows): double quotes when the text
+           \* holds a single quote (39) and no double quote (34), else single quotes with single quotes escaped
+           dq == (\E q \in 1..PTop.n : bs[q] = 39) /\ ~(\E q \in 1..PTop.n : bs[q] = 34)
+           quote == IF dq THEN "\"" ELSE "'"
+           txt(b) == IF ~dq /\ b = 39 THEN "\\'" ELSE ByteText(b)
+       IN Emit(Indent(PTop.ind) \o PTop.nm \o ": " \o quote \o Concat([q \in 1..PTop.n |-> txt(bs[q])]) \o quote)
     /\ ptodo' = PRest /\ wpos' = wpos + PTop.n
     /\ UNCHANGED <<gid, pframes, pphase>>
 
